@@ -103,4 +103,4 @@ reg(C15(
     modelled=["cache/cache.go counter updates on every branch of Target.GnmiUpdate / gnmiUpdate / gnmiRemove, checkTimestamp, updateMeta, updateSize, Reset (CacheModel.v + MultiCache.v); metadata/metadata.go; latency/latency.go: New, Compute, UpdateReset, UpdateLast, window add / slide / isCovered / setAvg / setMax / setMin (LatencyModel.v)"],
 ),
     level_text="Theorems in coq/Props/C15.v state over the Gallina models of cache.Target and latency.Latency, for all histories: leaf count = stored non-metadata leaves and moves by added - deleted; every ingest unit lands in exactly one of updated/suppressed/stale/future or is returned as an error, empty notifications in empty; the latest timestamp never decreases and moves only to an accepted tracked timestamp; every exported latency statistic lies within the sample bounds of the retained slots (average within the precision); every conflicting pair of access sites of the shared fields (sync, ts, metadata values, latency accumulators, tree) shares a mutex over the lockset annotation (true since b865e5c; a -race build of a refresh||update workload is supporting evidence in the thorough tier). The leaf-count equation was false before the fix ccc875e this check led to. The models are tied to the Go code by a correspondence run evaluated inside Coq, which also applies the executable specification to the implementation's own counters, Query results and exported statistics.",
-    level_note="Trusted: Coq kernel + vm_compute, the hand-written models (validated only on the explored cases), the Go harness projection, that the lockset annotation matches the code (race detector run in the thorough tier as supporting evidence only).")
+    level_note="Trusted: Coq kernel + vm_compute, the hand-written models (validated only on the explored cases), the Go harness projection, that the lockset annotation matches the code (race detector run in the thorough tier as supporting evidence only). Since round 7 the one-call law of the latest timestamp is exact including multi notifications (C15_latest_exact_partial); the whole-history form is still stepwise.")
